@@ -54,6 +54,7 @@ def ref_forms(r, table):
         forms.append('"%s"' % a)
         if p + "/sub" in gobuild.FIXTURES:
             forms.append(a + "/sub")
+            forms.append('"%s/sub"' % a)
     for p in gobuild.FIXTURES:
         if p.split("/")[0] in table:
             continue            # the first segment is an alias: the path would denote the alias expansion, not this package
@@ -190,8 +191,19 @@ def run(tier, seed, replay):
         if len(samples) < 3:
             samples.append({"table": table, "references": expect[:5], "import_block": api["imports"][:8]})
     # compile and run: every fixture package exports the same symbols, each identifying its own package
-    items = [("c%04d" % k, obs[k]["out_content"]) for k in acc if not specs[k]["flags"].get("stub")][: (60 if tier == "quick" else 300)]
+    nonstub = [k for k in acc if not specs[k]["flags"].get("stub")]
+    cap = 60 if tier == "quick" else 300
+    # (a stride over all families instead of a prefix: the later families - case-only aliases, two files, unused types - are compiled too)
+    directed_k = [k for k in nonstub if not specs[k]["what"][0].startswith("aliases:")]
+    alias_k = [k for k in nonstub if specs[k]["what"][0].startswith("aliases:")]
+    room = max(1, cap - len(directed_k))
+    items = [("c%04d" % k, obs[k]["out_content"]) for k in directed_k + alias_k[::max(1, (len(alias_k) + room - 1) // room)]][:cap + len(directed_k)]
     errs, unstable, init_fail = codegen.compile_batch(items)
+    for name, txt in init_fail.items():
+        if name != "_batch":
+            out.violation("init-fails", "the generated package fails when it is initialised: %s" % txt[-300:], common.slim(specs[int(name[1:])], obs[int(name[1:])]))
+        else:
+            out.broke("harness: C14 init batch", txt[-600:])
     sitems = [("c%04d" % k, obs[k]["out_content"]) for k in acc if specs[k]["flags"].get("stub")]
     if sitems:
         serrs, _, _ = codegen.compile_batch(sitems, tags="gontainerstub")
